@@ -4,6 +4,9 @@ from mc.fakenet import Net, Patched
 from mc.sim import SimMachine
 
 
+_STRUCTS = {}
+
+
 class Session(object):
     def __init__(self, sim, budget=200000, n_tries=5, timeout=0.5,
                  window=None, **mc_kwargs):
@@ -20,6 +23,13 @@ class Session(object):
         self.patch = Patched(self.net, [sc, mcm, boot])
         self.patch.__enter__()
         self.sim.sync()
+        if "structs" not in self.kw:
+            # parse the struct file once per process (with rig's own reader)
+            key = mcm.__file__
+            if key not in _STRUCTS:
+                _STRUCTS[key] = mcm.MachineController("host").structs
+            import copy
+            self.kw["structs"] = _STRUCTS[key]
         self.mc = mcm.MachineController("host", **self.kw)
         if self.window is not None:
             self.mc._window_size = self.window
